@@ -114,13 +114,11 @@ def _inplace_offenders(fd):
     return out
 
 
-def _stored_alias_offenders(fd):
-    """`x = C[k]` (or `x = C.attr`) followed by `x += ...`: with numpy arrays the augmented assignment updates the object that is still stored in C.  That is visible to the
-    caller -- and makes array calls differ from scalar calls -- exactly when C outlives the function: C is a parameter, is returned, or is put into something that is."""
+def _escaping_names(fd):
+    """names whose objects outlive the function: parameters, names occurring in return values, names put into an escaping container"""
     params = {a.arg for a in fd.args.args + fd.args.kwonlyargs} - {'self', 'cls'}
     nodes = []
     for st in fd.body: nodes.extend(ast.walk(st))
-    # names that escape: parameters, names occurring in return values, names stored into an escaping container
     escaping = set(params)
     for n in nodes:
         if isinstance(n, ast.Return) and n.value is not None:
@@ -141,6 +139,15 @@ def _stored_alias_offenders(fd):
                         if isinstance(x, ast.Name) and x.id not in escaping:
                             escaping.add(x.id); grew = True
         if not grew: break
+    return escaping
+
+
+def _stored_alias_offenders(fd):
+    """`x = C[k]` (or `x = C.attr`) followed by `x += ...`: with numpy arrays the augmented assignment updates the object that is still stored in C.  That is visible to the
+    caller -- and makes array calls differ from scalar calls -- exactly when C outlives the function: C is a parameter, is returned, or is put into something that is."""
+    nodes = []
+    for st in fd.body: nodes.extend(ast.walk(st))
+    escaping = _escaping_names(fd)
     # aliases of stored objects
     src = {}
     for n in nodes:
@@ -213,6 +220,8 @@ def _only_fresh_actuals(mod, funcs, helper, pname, depth=0):
             if actual.id in cparams and _only_fresh_actuals(mod, funcs, caller, actual.id, depth + 1):
                 continue
             return False
+        if actual.id in (_escaping_names(caller) - {a.arg for a in caller.args.args}) :
+            return False          # the caller hands the container on (returns it, stores it in its result)
         defs = [a for a in ast.walk(caller) if isinstance(a, ast.Assign) and any(isinstance(t, ast.Name) and t.id == actual.id for t in a.targets)]
         fresh = lambda v: isinstance(v, (ast.Dict, ast.List, ast.Set, ast.Constant, ast.BinOp, ast.ListComp, ast.DictComp)) or \
             (isinstance(v, ast.Call) and ast.unparse(v.func).split('.')[-1] in ('dict', 'list', 'set', 'zeros', 'zeros_like', 'empty', 'empty_like', 'ones', 'full', 'copy', 'array', 'Dict', 'nbDict', 'nbList', 'List'))
@@ -238,6 +247,8 @@ def inplace_lint(chk, repo, rule, paths, floor_funcs=1):
                 for ln, txt, src_ in _name_alias_offenders(fd):
                     offenders.append(f'{fd.name} line {ln}: `{txt}: with array values the two names are one object and the update changes both')
                 for ln, txt, cont in _stored_alias_offenders(fd):
+                    if _only_fresh_actuals(mod, funcs, fd, cont):
+                        continue      # a private helper working on a container every caller builds itself and keeps to itself
                     offenders.append(f'{fd.name} line {ln}: `{txt}` updates in place an object that is still stored in `{cont}`, which outlives the function: with array values the stored entry changes too')
                 for ln, txt, name in _inplace_offenders(fd):
                     if _only_fresh_actuals(mod, funcs, fd, name):
